@@ -219,7 +219,7 @@ class Verdict:
         for i, (key, what, replay) in enumerate((firsts + rest)[:8]):
             path = os.path.join(rdir, '%s-%d-%d.json' % (self.pid, seed(), i))
             with open(path, 'w') as f:
-                json.dump({'property': self.pid, 'key': key, 'what': what, 'replay': replay}, f, indent=1, default=str)
+                json.dump({'property': self.pid, 'key': key, 'seed': seed(), 'tier': os.environ.get('VERIF_TIER', 'quick'), 'what': what, 'replay': replay}, f, indent=1, default=str)
             log('VIOLATION property=%s replay=%s' % (self.pid, path))
             log('  key=%s %s' % (key, str(what)[:300]))
         return 1
